@@ -8,6 +8,8 @@ import AnonModel.Driver.OpsVerify
 import AnonModel.Driver.OpsProver
 import AnonModel.Driver.OpsStore
 import AnonModel.Driver.OpsTails
+import AnonModel.Driver.OpsWire
+import AnonModel.Driver.OpsIssue
 import AnonModel.Model.Ident
 /-! Dispatch of line-protocol operations to model functions. -/
 open Lean
@@ -60,6 +62,12 @@ def step (j : Json) : Json :=
     | some r => r
     | none =>
     match stepTails op j with
+    | some r => r
+    | none =>
+    match stepWire op j with
+    | some r => r
+    | none =>
+    match stepIssue op j with
     | some r => r
     | none => badOp
 
